@@ -1364,10 +1364,17 @@ func (e *authEngine) Step(ws []string, o *Out) string {
 		}
 		e.mgr.mu.Unlock()
 		return "ok"
-	case "http", "tcp":
+	case "http", "tcp", "httpf", "tcpf":
 		s := e.srvs["proxy"]
 		if s == nil {
 			return "bad-op"
+		}
+		// httpf/tcpf: the same request with a client-supplied `x-piko-forward: true`
+		var fwdHdr map[string]string
+		if strings.HasSuffix(ws[0], "f") {
+			fwdHdr = map[string]string{"X-Piko-Forward": "true"}
+			ws = append([]string{strings.TrimSuffix(ws[0], "f")}, ws[1:]...)
+			o.Count("conf:forward-header")
 		}
 		var r *reqSpec
 		var ok bool
@@ -1395,6 +1402,9 @@ func (e *authEngine) Step(ws []string, o *Out) string {
 			if x := Unhx(ws[4]); x != "" {
 				extra["X-Piko-Endpoint"] = x
 			}
+			for k, v := range fwdHdr {
+				extra[k] = v
+			}
 			h = e.send(s, "GET", "http://piko.local/", &host, r, extra)
 		} else {
 			if len(ws) != 6 {
@@ -1409,7 +1419,7 @@ func (e *authEngine) Step(ws []string, o *Out) string {
 				return "bad-op"
 			}
 			lh := "127.0.0.1"
-			h = e.send(s, "GET", target, &lh, r, nil)
+			h = e.send(s, "GET", target, &lh, r, fwdHdr)
 		}
 		e.mgr.mu.Lock()
 		sel, dialed := append([]string{}, e.mgr.sel...), append([]string{}, e.mgr.dialed...)
@@ -2054,7 +2064,7 @@ func (g *gen) caseConf(name string) {
 			if err != nil {
 				hostnp = host
 			}
-			g.p("http %s %s %s %s %s %s %s", Hx(host), Hx(hostnp), B01(net.ParseIP(hostnp) != nil), Hx(xep), x, a, tenant)
+			g.p("%s %s %s %s %s %s %s %s", Pick(g.r, []string{"http", "http", "httpf"}), Hx(host), Hx(hostnp), B01(net.ParseIP(hostnp) != nil), Hx(xep), x, a, tenant)
 		case 2:
 			if ep == "" {
 				ep = "ep" // an empty path segment is not a parameter value (gin's tree has its own rules there)
@@ -2064,7 +2074,7 @@ func (g *gen) caseConf(name string) {
 			if err != nil {
 				continue
 			}
-			g.p("tcp %s %s %s %s %s", Hx(raw), Hx(u.Path), x, a, tenant)
+			g.p("%s %s %s %s %s %s", Pick(g.r, []string{"tcp", "tcp", "tcpf"}), Hx(raw), Hx(u.Path), x, a, tenant)
 		case 3:
 			if ep == "" {
 				ep = "ep"
